@@ -11,6 +11,8 @@ MC_ClockT == 7
 
 PredsAll == {"true", "false", "has_a", "has_b", "a_is_1", "a_is_11", "two_props",
              "ext_none", "ext_point", "ext_range", "ext_clock"}
+\* for the filter of a nested runtime
+PredsNested == {"true", "false", "has_a", "a_is_11", "a_is_1", "two_props", "ext_none", "ext_clock", "ext_9"}
 
 Absent == [op |-> "absent"]
 FLeaf(p, id) == [op |-> "leaf", p |-> p, id |-> id]
@@ -42,6 +44,11 @@ WrapFilters(b) ==
         [op |-> "and", l |-> FLeaf("has_a", i + 1), r |-> [op |-> "erased", t |-> FLeaf("ext_point", i + 2)]],
         [op |-> "or", l |-> FLeaf("false", i + 1), r |-> FLeaf("a_is_11", i + 2)]}
 
+\* the nested runtimes inside general destination trees (filter leaf ids 300 + 4b + ..)
+RtCfgs(b) ==
+    {[f |-> FLeaf("has_a", 300 + 4 * b + 1), amb |-> <<[k |-> "a", v |-> 21]>>, clock |-> 9],
+     [f |-> FLeaf("false", 300 + 4 * b + 1), amb |-> <<>>, clock |-> None]}
+
 RECURSIVE EWidth(_)
 EWidth(d) == IF d = 0 THEN 1 ELSE 2 * EWidth(d - 1) + 1
 
@@ -56,6 +63,9 @@ ET(d, b) ==
                 \cup {[op |-> o, t |-> x] : o \in FWrap, x \in sub}
                 \cup {[op |-> "and", l |-> x, r |-> y] : x \in sub, y \in subR}
                 \cup {[op |-> "wrap", f |-> f, t |-> x] : f \in WrapFilters(b), x \in subW}
+                \cup {[op |-> "wrapfn", kind |-> k, t |-> x] : k \in {"drop", "pass", "prepend"}, x \in sub}
+                \cup {[op |-> "rt", f |-> c.f, amb |-> c.amb, clock |-> c.clock, id |-> b + 1, t |-> x] :
+                         c \in RtCfgs(b), x \in subW}
 
 \* destination trees of depth 3 whose children are restricted (thorough)
 ET3(b) ==
@@ -65,6 +75,9 @@ ET3(b) ==
        \cup {[op |-> "and", l |-> y, r |-> x] : x \in ET(2, b + EWidth(1)), y \in ET(1, b)}
        \cup {[op |-> o, t |-> x] : o \in {"erased", "opt", "arc"}, x \in two}
        \cup {[op |-> "wrap", f |-> f, t |-> x] : f \in WrapFilters(b), x \in ET(2, b + 1)}
+       \cup {[op |-> "wrapfn", kind |-> "prepend", t |-> x] : x \in two}
+       \cup {[op |-> "rt", f |-> c.f, amb |-> c.amb, clock |-> c.clock, id |-> b + 1, t |-> x] :
+                c \in RtCfgs(b), x \in ET(2, b + 1)}
 
 KV(k, v) == [k |-> k, v |-> v]
 Owns == {<<>>, <<KV("a", 1)>>, <<KV("b", 1)>>, <<KV("a", 1), KV("a", 2)>>, <<KV("a", 1), KV("b", 2)>>}
@@ -97,6 +110,16 @@ ScenSet(s) ==
                 f \in (IF s.d = 3 THEN FT3(s.preds, IF s.cs THEN 100 ELSE 0)
                        ELSE FT(s.preds, s.d, IF s.cs THEN 100 ELSE 0)),
                 am \in s.ambs}
+      \* R: a nested runtime (every filter predicate x ambient x clock) over a few destination
+      \*    trees x events with / without extent, outer ambient, outer clock
+      [] s.kind = "R" ->
+            {Config(o, x, am, cl, FLeaf("true", 1), Absent,
+                    [op |-> "rt", f |-> FLeaf(s.p, 301), amb |-> s.amb, clock |-> s.clock, id |-> 1, t |-> e],
+                    s.entry) :
+                o \in {<<>>, <<KV("a", 1)>>}, x \in {NoExtent, Point(5)}, am \in {<<>>, <<KV("a", 11)>>},
+                cl \in Clocks,
+                e \in {ELeaf(2), [op |-> "and", l |-> ELeaf(2), r |-> [op |-> "wrapfn", kind |-> "prepend", t |-> ELeaf(3)]],
+                       [op |-> "wrap", f |-> FLeaf("a_is_11", 205), t |-> ELeaf(2)]}}
       [] s.kind = "D" ->
             {Config(s.own, Point(5), s.amb, MC_ClockT, FLeaf(s.p, 1), Absent, e, s.entry) :
                 e \in (IF s.d = 3 THEN ET3(0) ELSE ET(s.d, 0))}
@@ -113,6 +136,10 @@ ScensF(preds, d, ambs, Entries) ==
         en \in Entries}
     \cup {[kind |-> "F", preds |-> preds, d |-> d, ambs |-> ambs, entry |-> en, cs |-> TRUE, rp |-> rp] :
         en \in Entries \cap MacroEntries, rp \in {"true", "false"}}
+
+ScensR(Entries) ==
+    {[kind |-> "R", p |-> p, amb |-> am, clock |-> cl, entry |-> en] :
+        p \in PredsNested, am \in {<<>>, <<KV("a", 21)>>, <<KV("b", 21)>>}, cl \in {None, 9}, en \in Entries}
 
 ScensD(d, Entries) ==
     {[kind |-> "D", d |-> d, own |-> o, amb |-> am, p |-> p, entry |-> en] :
@@ -131,6 +158,7 @@ ScensFor(w) ==
             \cup ScensF({"true", "false", "has_b", "ext_clock"}, 1, {<<>>, <<KV("b", 11)>>}, {"core", "macro_evt"})
             \cup ScensD(2, {"rt", "direct", "macro"})
             \cup ScensD(1, {"macro_evt", "core", "rt_as_emitter"})
+            \cup ScensR({"rt", "direct"})
       [] w = "thorough" ->
             ScensE(PredsAll, AllEntries)
             \cup ScensF({"true", "false", "has_b"}, 2, {<<>>, <<KV("b", 11)>>}, {"rt", "macro", "macro_evt"})
@@ -138,6 +166,7 @@ ScensFor(w) ==
             \cup ScensF({"true", "false"}, 3, {<<>>}, {"rt"})
             \cup ScensD(2, AllEntries)
             \cup ScensD(3, {"rt", "direct"})
+            \cup ScensR(AllEntries)
 
 MC_Scens == ScensFor(Which)
 MC_Scen(s) == ScenSet(s)
